@@ -148,7 +148,7 @@ def main(argv=None):
             if prop == "C06" and args.tier == "thorough" and cfg.get("n") == 2:
                 cfg["compile_all"] = True  # every state's C header is compiled and run in these configurations
             if prop == "C19" and args.tier == "thorough":
-                cfg["twin_depth"] = 99  # queried-vs-untouched twin comparison at every state, not only near the root
+                cfg["twin_depth"] = 3  # queried-vs-untouched twin comparison three levels deep instead of two
             jobs.append([len(jobs), sysname, cfg, [prop], args.tier])
     if not jobs:
         print("no jobs")
